@@ -47,7 +47,7 @@ def contract(cell, ir):
         src = ir["params"].get(d.split(".")[0], {}) if field not in ("names", "returns") and not field.startswith("returns.") else {}
         wrapped = et and not src and any(len(p.get("typ") or "") > 85 for p in ir["params"].values())
         out.append((("roundtrip", style, "defaults_in_doc=%s" % edd, "types=%s" % et, field, M.typ_class(src.get("typ")) if src else ("wrapped-type" if wrapped else "-"), M.default_class(src) if src else "-"),
-                    "%s; emitted docstring:\n%s" % (d, text[-300:]), None))
+                    "%s; emitted docstring:\n%s" % (d, text[-300:]), {"param_doc": src.get("doc")} if src else None))
     return out
 
 
@@ -63,6 +63,18 @@ def marker_replay(_name):
             if r and "adhoc" in _name:
                 return {"cell": list(cell), "ir": json.loads(json.dumps(ir)), "what": r[0][1][:300]}
     if "adhoc" in _name:
+        return None
+    if "signed-decimal" in _name:
+        # untyped and Optional[int] negative defaults through the real emitter / parser (the typed int path does not use the branch)
+        for typ_, cell in (("Optional[int]", ("rest", True, True)), ("Optional[int]", ("google", True, True)), ("int", ("rest", True, False)), ("Optional[int]", ("numpydoc", True, True))):
+            for dflt in (-3, -2, -10):
+                ir = domain.make_ir(((typ_, dflt, "the {name}"),))
+                try:
+                    r = [x for x in contract(cell, ir) if x[0][4] == "default"]
+                except Exception:
+                    r = []
+                if r:
+                    return {"cell": list(cell), "ir": json.loads(json.dumps(ir)), "what": r[0][1][:300]}
         return None
     for dflt in (1e16, -2.5e-07, 1e-05, 3, -3, 2.5, 1.5e+300):
         for cell in (("google", True, True), ("rest", True, True), ("numpydoc", True, True)):
@@ -87,7 +99,10 @@ def main(tier, write_baseline=False):
     compare_baseline(run, set(run.obligations))
     fails = {}
     if not os.environ.get("VERIF_NO_BOUNDED"):
-        pool = domain.param_pool(TYPES, docs=["the {name}", "The {name} of it.", "many things, with a comma", "first line\nsecond line of the {name}", "ratio: a to b", "Gr\u00f6\u00dfe des {name} (Ma\u00df)"])
+        pool = domain.param_pool(TYPES, docs=["the {name}", "The {name} of it.", "many things, with a comma", "first line\nsecond line of the {name}", "ratio: a to b", "Gr\u00f6\u00dfe des {name} (Ma\u00df)",
+                                                  # prose about optionality: only a description that STARTS with the capitalised word is
+                                                  # (by a documented heuristic, a known finding) allowed to change the type
+                                                  "optional {name}, in seconds", "the {name}, optional", "Optional {name} of it"])
         irs = list(domain.irs(1, pool, suffix_defaults=True)) + list(domain.irs(3 if tier == "thorough" else 2, pool, sample=600 if tier == "quick" else 4000, seed=run.seed, suffix_defaults=True))
         irs += [ir for ir in domain.irs(1, pool[:6], suffix_defaults=True, returns=(("typ", "int"), ("doc", "the result")))]
         # word-wrap sweep: descriptions of every length around the wrap column, a defaulted parameter that is not the last one
